@@ -34,6 +34,21 @@ def rule_phi_insertion(ctx):
     fn = find_fn(SSA, "insert_phi_statements")
     if fn is None:
         return ctx.missing(R, "insert_phi_statements")
+    import alpha
+    fn, miss_ = alpha.canon(fn, [("basic_blocks", "param", 0), ("dominator_tree", "param", 1), ("env", "param", 2),
+                                 ("work_list", "let", "(0..basic_blocks.len()).collect()"),
+                                 ("current_index", "whilelet", "work_list.pop()"),
+                                 ("frontier_index", "forvar", "dominator_tree.get_dominance_frontier(current_index)"),
+                                 ("frontier_block", "let", "&mut basic_blocks[frontier_index]", "optional")])
+    if miss_:
+        return ctx.missing(R, "insert_phi_statements/roles", "cannot identify %s" % miss_)
+    # the set of written variables: the local whose definition reads `.variables_written()`
+    for n_ in walk(fn["body"]):
+        if n_["k"] == "Local" and n_["pat"]["k"] == "PIdent" and n_["init"] is not None and ".variables_written()" in render(n_["init"]).replace(" ", "") and n_["pat"]["name"] != "variables_written":
+            alpha.rename(fn["body"], {n_["pat"]["name"]: "variables_written"})
+    for n_ in walk(fn["body"]):
+        if n_["k"] == "For" and render(strip(n_["iter"])) == "variables_written" and n_["pat"]["k"] == "PIdent" and n_["pat"]["name"] != "var":
+            alpha.rename(fn["body"], {n_["pat"]["name"]: "var"})
     le = let_env(fn["body"])
     wl = le.get("work_list")
     ctx.check(R, "insert_phi_statements/work-list-starts-with-all-blocks", wl is not None and render(strip(wl)).replace(" ", "") in ("(0..basic_blocks.len()).collect()", "0..basic_blocks.len().collect()"), render(wl) if wl else "?", site(SSA, fn))
@@ -49,8 +64,9 @@ def rule_phi_insertion(ctx):
     si = [fact_str(c).replace(" ", "") for c in ci]
     sp = [fact_str(c).replace(" ", "") for c in cp]
     want_tail = ["!variables_written.is_empty()", "forfrontier_indexindominator_tree.get_dominance_frontier(current_index)", "forvarin&variables_written", "!frontier_block.has_phi_statement(var)"]
+    core_alt = ["!variables_written.is_empty()", "forfrontier_indexindominator_tree.get_dominance_frontier(current_index)", "forvarin&variables_written", "!basic_blocks[frontier_index].has_phi_statement(var)"]
     core = [s for s in si if not s.startswith("while") and not s.startswith("(letSome(current_index)")]
-    ctx.check(R, "insert_phi_statements/phi-for-every-written-variable-in-every-frontier-block", core == want_tail, "insertion guarded by %s" % core, site(SSA, ins[0]))
+    ctx.check(R, "insert_phi_statements/phi-for-every-written-variable-in-every-frontier-block", core in (want_tail, core_alt), "insertion guarded by %s" % core, site(SSA, ins[0]))
     ctx.check(R, "insert_phi_statements/requeue-whenever-a-phi-was-added", sp == si, "work_list.push under %s, insertion under %s: a block that received a phi now defines the variable and must be processed again, unconditionally" % ([s for s in sp if s not in si], [s for s in si if s not in sp]), site(SSA, push[0]))
     ctx.check(R, "insert_phi_statements/requeue-the-frontier-block", render(strip(push[0]["args"][0])) == "frontier_index", render(push[0]), site(SSA, push[0]))
     vw = le.get("variables_written")
@@ -61,7 +77,7 @@ def rule_phi_insertion(ctx):
     idxv = [b for _n, b in sgrep.find(fn["body"], "while let Some(__i) = work_list.pop() { __body }")] or [{"__i": "current_index"}]
     ctx.check(R, "insert_phi_statements/variables-of-the-current-block", any(b["__i"] == "current_index" for b in vwb) or any(b["__i"] in [x.get("__i") for x in idxv] for b in vwb), "the written variables must be those of the block just taken from the work list: %s" % vwb, site(SSA, fn))
     fb = [n for n in walk(fn["body"]) if n["k"] == "Local" and n["pat"]["k"] == "PIdent" and n["pat"]["name"] == "frontier_block"]
-    ctx.check(R, "insert_phi_statements/frontier-block-lookup", len(fb) == 1 and render(strip(fb[0]["init"])).replace(" ", "") == "basic_blocks[frontier_index]", render(fb[0]["init"]) if fb else "?", site(SSA, fn))
+    ctx.check(R, "insert_phi_statements/frontier-block-lookup", (len(fb) == 1 and render(strip(fb[0]["init"])).replace(" ", "") == "basic_blocks[frontier_index]") or (not fb and render(strip(ins[0]["recv"])).replace(" ", "") == "basic_blocks[frontier_index]"), render(fb[0]["init"]) if fb else "?", site(SSA, fn))
     conts = [n for n in walk(fn["body"]) if n["k"] in ("Continue", "Break", "Return")]
     ctx.check(R, "insert_phi_statements/only-skip-is-no-variables-written", len(conts) == 1 and conts[0]["k"] == "Continue", "%d early exits" % len(conts), site(SSA, fn))
     # trait defaults
@@ -84,6 +100,13 @@ def rule_phi_insertion(ctx):
     fn = find_fn(SSA, "insert_ssa_variables_impl")
     if fn is None:
         return ctx.missing(R, "insert_ssa_variables_impl")
+    fn, miss_ = alpha.canon(fn, [("current_index", "param", 0), ("basic_blocks", "param", 1), ("dominator_tree", "param", 2), ("env", "param", 3)])
+    for n_ in walk(fn["body"]):
+        if n_["k"] == "Local" and n_["pat"]["k"] == "PIdent" and n_["init"] is not None and ".successors()" in render(n_["init"]).replace(" ", "") and n_["pat"]["name"] != "successors":
+            alpha.rename(fn["body"], {n_["pat"]["name"]: "successors"})
+    for n_ in walk(fn["body"]):
+        if n_["k"] == "For" and n_["pat"]["k"] == "PIdent" and render(strip(n_["iter"])).replace(" ", "") in ("successors", "dominator_tree.get_dominator_successors(current_index)") and n_["pat"]["name"] != "successor_index":
+            alpha.rename(n_, {n_["pat"]["name"]: "successor_index"})
     ren = list(method_calls(fn["body"], "insert_ssa_variables"))
     upd = list(method_calls(fn["body"], "update_phi_statements"))
     rec = list(calls(fn["body"], "insert_ssa_variables_impl::<Cfg>")) or [c for c in walk(fn["body"]) if c["k"] == "Call" and "insert_ssa_variables_impl" in render(c["func"])]
